@@ -41,10 +41,10 @@ def install():
 class Subject:
     """one generated input with everything the oracles need"""
 
-    def __init__(self, seed, arch=None, small=False, families=None, mean_units=None, forced=None, form=None, typable=False, sp=None):
+    def __init__(self, seed, arch=None, small=False, families=None, mean_units=None, forced=None, form=None, typable=False, sp=None, respell=False):
         rng = random.Random(seed)
         self.seed = seed
-        self.ast = gen.make_molecule(rng, arch, small=small, families=families, mean_units=mean_units, form=form, typable=typable)
+        self.ast = gen.make_molecule(rng, arch, small=small, families=families, mean_units=mean_units, form=form, typable=typable, respell=respell)
         self.targets = {}
         if forced is not None:
             for k, e in enumerate(self.ast.elements):
